@@ -922,6 +922,7 @@ class ArgumentParser(ParserDeprecations, ActionsContainer, ArgumentLinking, argp
                     self.validate(strip_meta(cfg), branch=branch)
 
             outputs: List[Tuple[Path, str]] = []
+            serialize_kwargs = {"skip_validation": True, "skip_none": skip_none}
 
             def save_paths(cfg):
                 for key in cfg.get_sorted_keys():
@@ -933,7 +934,11 @@ class ArgumentParser(ParserDeprecations, ActionsContainer, ArgumentLinking, argp
                             check_overwrite(val_path)
                             val_out = strip_meta(val)
                             if isinstance(val, Namespace):
-                                val_out = val_out.as_dict()
+                                branch_cfg = Namespace()
+                                branch_cfg[key] = val_out
+                                with parser_context(load_value_mode=self.parser_mode):
+                                    self._dump_cleanup_actions(branch_cfg, self._actions, serialize_kwargs)
+                                val_out = branch_cfg.get(key, Namespace()).as_dict()
                             if "__orig__" in val:
                                 val_str = val["__orig__"]
                             else:
